@@ -390,6 +390,22 @@ func init() {
 		c12TLCPart(c)
 		// every data value: the enumerations above use three TIMA/TMA write values; here one overflow and reload is run
 		// for every TMA value x every value written to TIMA or TMA in the overflow cycle, in the reload cycle and right after
+		// TAC written with its unused bits set (what a read-modify-write stores: TAC reads F8 | value): only bits 0-2 count
+		explore.Product(c.R, "tac-with-unused-bits", explore.PartOpt{Bound: "two TAC writes, 80 ticks after each, every step compared", Domain: "first value v | F8, second value w | 08 or w | 80, v, w in 0-7, from two counter phases"},
+			func(yield func(c12Case) bool) {
+				for _, cnt := range []uint16{0x0000, 0xffb0} {
+					for v := 0; v < 8; v++ {
+						for w := 0; w < 8; w++ {
+							for _, hi := range []uint8{0x08, 0x80} {
+								path := []c12Ev{{K: "tac", V: uint8(v) | 0xf8}, {K: "ticks", N: 80}, {K: "tac", V: uint8(w) | hi}, {K: "ticks", N: 80}}
+								if !yield(c12Case{Start: c12Start{Counter: cnt, TIMA: 0xfd, TMA: 0x23, TAC: 0}, Path: path}) {
+									return
+								}
+							}
+						}
+					}
+				}
+			}, func() struct{} { return struct{}{} }, c12Check)
 		explore.Product(c.R, "reload-with-every-value", explore.PartOpt{Bound: "one overflow and reload per case, every step compared", Domain: "TAC 4-7 x TMA 0-255 x {no write, TIMA<-w, TMA<-w} x w 0-255 x write placed in the overflow cycle, the reload cycle or the cycle after"},
 			func(yield func(c12Case) bool) {
 				for _, tac := range []uint8{4, 5, 6, 7} {
